@@ -199,6 +199,20 @@ func exec(op string) (res string) {
 		incl := cassLe(gocql.MinTimeUUID(ta), u) && cassLe(u, gocql.MaxTimeUUID(tb))
 		excl := !cassLe(u, gocql.MaxTimeUUID(ta)) && !cassLe(gocql.MinTimeUUID(tb), u)
 		return "incl=" + io(incl) + " excl=" + io(excl)
+	case "casscmp":
+		a, b := uuidOf(hx(1)), uuidOf(hx(2))
+		c := javaCompare(a, b)
+		if (c <= 0) != cassLe(a, b) || (c >= 0) != cassLe(b, a) {
+			return "HARNESS-ORDERS-DISAGREE"
+		}
+		r := "gt"
+		if c <= 0 {
+			r = "le"
+		}
+		if c >= 0 {
+			return r + " ge"
+		}
+		return r + " lt"
 	case "genord":
 		// two GENERATED time-UUIDs (UUIDFromTime, whatever the counter and node are right now) under Cassandra's order
 		ta, tb := time.Unix(i64(1), i64(2)), time.Unix(i64(3), i64(4))
@@ -318,6 +332,40 @@ func exec(op string) (res string) {
 		return "ok"
 	}
 	return "bad-op"
+}
+
+// javaCompare: Cassandra 3.x/4.x TimeUUIDType.compareCustom for two version-1 values, transliterated (as recalled):
+//
+//	long msb1 = reorderTimestampBytes(b1.getLong(0)), msb2 = …;  int c = Long.compare(msb1, msb2); if (c != 0) return c;
+//	return Long.compare(signedBytesToNativeLong(b1.getLong(8)), signedBytesToNativeLong(b2.getLong(8)));
+//	reorderTimestampBytes(x) = (x << 48) | ((x << 16) & 0xFFFF00000000L) | (x >>> 32)
+//	signedBytesToNativeLong(x) = x ^ 0x0080808080808080L
+//
+// A second, differently shaped formulation of the order Spec.cassLe states (timestamp, then signed bytes).
+func javaCompare(a, b gocql.UUID) int {
+	getLong := func(u gocql.UUID, off int) int64 {
+		var x uint64
+		for i := 0; i < 8; i++ {
+			x = x<<8 | uint64(u[off+i])
+		}
+		return int64(x)
+	}
+	reorder := func(x int64) int64 {
+		return (x << 48) | ((x << 16) & 0xFFFF00000000) | int64(uint64(x)>>32)
+	}
+	cmp := func(x, y int64) int {
+		switch {
+		case x < y:
+			return -1
+		case x > y:
+			return 1
+		}
+		return 0
+	}
+	if c := cmp(reorder(getLong(a, 0)), reorder(getLong(b, 0))); c != 0 {
+		return c
+	}
+	return cmp(getLong(a, 8)^0x0080808080808080, getLong(b, 8)^0x0080808080808080)
 }
 
 // cassLe: Cassandra's TimeUUIDType order, written independently of gocql: RFC 4122 timestamp first,
@@ -705,6 +753,45 @@ func main() {
 				op = fmt.Sprintf("genord %s %s %s %s", f[3], f[4], f[1], f[2])
 			}
 			out.Case(op, exec(op), "genord", true)
+		}
+		{
+			// two version-1 values (any variant bits): equal / adjacent / random timestamps, low bytes from the sign edges
+			mk := func(ts int64) []byte {
+				var low [8]byte
+				copy(low[:], r.Bytes(8))
+				if r.Bool() {
+					for k := range low {
+						low[k] = r.PickByte([]byte{0x80, 0x7f, 0x00, 0xff, 0x81, 0x7e, 0x01})
+					}
+				}
+				u := mkV1(ts, low)
+				u[8] = low[0] // any variant
+				return u
+			}
+			ta := int64(r.U64() & (1<<60 - 1))
+			if r.Intn(4) == 0 {
+				ta = []int64{0, 1, 1<<60 - 1, 1<<59 - 1, 1 << 59, 1<<48 - 1, 1 << 48, 1<<32 - 1, 1 << 32, 0x0800000000000000, 0x07ffffffffffffff}[r.Intn(11)]
+			}
+			tb := ta
+			switch r.Intn(6) {
+			case 0:
+				tb = (ta + 1) & (1<<60 - 1)
+			case 1:
+				tb = ta ^ (1 << uint(r.Intn(60)))
+			case 2:
+				tb = int64(r.U64() & (1<<60 - 1))
+			}
+			ua := mk(ta)
+			ub := mk(tb)
+			if r.Intn(3) == 0 { // equal up to one low byte
+				copy(ub[8:], ua[8:])
+				ub[8+r.Intn(8)] ^= byte(1 << uint(r.Intn(8)))
+			}
+			if r.Intn(16) == 0 { // the same timestamp and low bytes (the version nibble may differ: not compared)
+				ub = append([]byte{}, ua...)
+			}
+			op = fmt.Sprintf("casscmp %s %s", vh.Hex(ua), vh.Hex(ub))
+			out.Case(op, exec(op), "casscmp", true)
 		}
 		if i%4 == 0 {
 			n := []int{0, 1, 8, 15, 16, 17, 32}[r.Intn(7)]
